@@ -364,13 +364,19 @@ fn ops_clonable<T: Tracked + Clone>(name: &'static str, readback: fn(u32) -> u32
     TyOps {
         name,
         // the three ways of storing a clonable value, in turn
-        set: |m, v| match v % 3 {
-            0 => m.set_content(T::mk(v)),
-            1 => m.set_body(des::net::message::Body::new(T::mk(v))),
-            _ => {
-                let old = std::mem::take(m);
-                *m = old.with_content(T::mk(v));
+        set: |m, v| {
+            match v % 4 {
+                0 => m.set_content(T::mk(v)),
+                1 => m.set_body(des::net::message::Body::new(T::mk(v))),
+                2 => m.set_body(des::net::message::Body::new_with_len(T::mk(v), T::exp_len(v))),
+                _ => {
+                    let old = std::mem::take(m);
+                    *m = old.with_content(T::mk(v));
+                }
             }
+            // the mutable accessors see the value that was just stored
+            assert!(m.try_content_mut::<T>().is_some_and(|c| c.val().is_some()), "try_content_mut::<T>() right after storing a T");
+            assert!(m.content_mut::<T>().val().is_some());
         },
         // try_cast decides; when it would succeed, the panicking `cast` must agree
         cast: |m| {
